@@ -190,10 +190,8 @@ class BlockNode(Node):
             "extends", {}
         ).get(self.name)
 
-        if not block_stack or all(item.block is not self for item in block_stack):
-            # This base template is being rendered directly, or it's a partial
-            # template, rendered from inside a block of an inheritance chain that
-            # happens to define a block with the same name.
+        if not block_stack:
+            # This base template is being rendered directly.
             if self.required:
                 raise RequiredBlockError(
                     f"block {self.name!r} must be overridden", token=self.token
@@ -250,10 +248,8 @@ class BlockNode(Node):
             "extends", {}
         ).get(self.name)
 
-        if not block_stack or all(item.block is not self for item in block_stack):
-            # This base template is being rendered directly, or it's a partial
-            # template, rendered from inside a block of an inheritance chain that
-            # happens to define a block with the same name.
+        if not block_stack:
+            # This base template is being rendered directly.
             if self.required:
                 raise RequiredBlockError(
                     f"block {self.name!r} must be overridden", token=self.token
